@@ -463,7 +463,7 @@ def q_preempt(registered):
               "thread clause: bounded to two interfaces and ONE pre-emption (B's call atomic inside A's call) at accesses to file-scope shared objects of the core; finer interleavings are outside the claim",
               "known finding (not repaired): first frames racing lose one registration in lltd_state_for_iface (no lock/atomic in the port API)"])
 def c17(tier, seed):
-    il = [blkq("blk_interleave_emit_at%d" % k, "h_interleave", replace={}, K=1, unwind=6, no_std_checks=True, defines=["PREEMPT_AT=%d" % k, "V_PREEMPT"],
+    il = [blkq("blk_interleave_emit_at%d" % k, "h_interleave", replace={}, K=1, unwind=34, no_std_checks=True, defines=["PREEMPT_AT=%d" % k, "V_PREEMPT"],
                bounds={"threads": "B's whole Emit runs inside the %d-th platform call of A's Emit (allocation, address getter, pause, transmit, transmit, release; one query per call index 0..6)" % k, "Emit": "one descriptor each, kinds {0,1}, any addresses/pause"},
                desc="second thread model: pre-emption at platform calls; both interfaces process an Emit; each must transmit exactly its own Probe/Train and ACK") for k in range(7)]
     # handler-level thread interleaving: A alone vs A with B's same-class handler inside A's k-th platform call
